@@ -141,7 +141,7 @@ func (e *Engine) Solve(o *Obligation, solvers []string, timeout time.Duration, d
 				kind = "cvc5"
 			}
 			if _, ok := qs[kind]; !ok {
-				q, err := e.BuildQuery(facts, o.Goal, kind, o.LenBound)
+				q, err := e.BuildQuery(facts, o.Goal, kind, o.LenBound, o.Fuel)
 				if err != nil {
 					return nil, err
 				}
